@@ -54,6 +54,7 @@ func sortsParam(fn *ssa.Function) int {
 func c37(r *core.Report, p *core.Prog, thorough bool) {
 	r.Explain = "Decided: every function of the round package releases on every exit each lock it acquired (a rejected restart included); the phase is never updated by an unsynchronised load-then-store; the restart guard is evaluated in the critical section that performs the reset; the timeout count, the VRF share set and the conditional finalizing reset are updated only behind their monotonicity guards while the round mutex is write-held. Not decided: liveness beyond lock release."
 	r.Rule("C37.lockpair", "every exit of every function in chaincore/round holds no lock the function acquired (defer-aware must-hold dataflow; lock wrappers summarised)")
+	r.Rule("C37.no-self-deadlock", "no function of chaincore/round calls, while it holds a mutex of its receiver, a method of the same receiver that acquires that mutex again (sync mutexes are not re-entrant: the call never returns and the round stays locked)")
 	r.Rule("C37.atomic-phase", "no atomic.Load → branch → atomic.Store on the round phase without a compare-and-swap (a concurrent smaller phase could overwrite a larger one)")
 	r.Rule("C37.restart", "Round.Restart: the phase guard (>= Share → error) is read while the round mutex is write-held and dominates the reset")
 	r.Rule("C37.monotone", "SetTimeoutCount stores only a larger count; AddVRFShare inserts only below the threshold and only a new party, under the write lock; ResetFinalizingStateIfNotFinalized resets only when not finalized")
@@ -69,6 +70,67 @@ func c37(r *core.Report, p *core.Prog, thorough bool) {
 		}
 	}
 	r.Floor("C37.lockpair", "lock acquisitions", nLock, 30)
+	// re-entrant acquisition
+	{
+		inSet := map[*ssa.Function]bool{}
+		for _, fn := range fns {
+			inSet[fn] = true
+		}
+		var acquires func(h *ssa.Function, suffix string, depth int, seen map[*ssa.Function]bool) bool
+		acquires = func(h *ssa.Function, suffix string, depth int, seen map[*ssa.Function]bool) bool {
+			if seen[h] || depth > 3 || h.Blocks == nil {
+				return false
+			}
+			seen[h] = true
+			hn := recvName(h)
+			if hn == "" {
+				return false
+			}
+			for _, cs := range core.CallsIn(h, false, nil) {
+				if pth, op := lockOp(cs.Common()); (op == "lock" || op == "rlock") && pth == hn+suffix {
+					return true
+				}
+				if c, ok := cs.Instr.(*ssa.Call); ok {
+					if g := c.Call.StaticCallee(); g != nil && inSet[g] && len(c.Call.Args) > 0 && len(h.Params) > 0 && c.Call.Args[0] == ssa.Value(h.Params[0]) {
+						if acquires(g, suffix, depth+1, seen) {
+							return true
+						}
+					}
+				}
+			}
+			return false
+		}
+		nHeldCalls := 0
+		for _, fn := range fns {
+			li := w.Info[fn]
+			rn := recvName(fn)
+			if li == nil || rn == "" || len(fn.Params) == 0 {
+				continue
+			}
+			for _, b := range fn.Blocks {
+				for _, in := range b.Instrs {
+					c, ok := in.(*ssa.Call)
+					if !ok {
+						continue
+					}
+					h := c.Call.StaticCallee()
+					if h == nil || !inSet[h] || len(c.Call.Args) == 0 || c.Call.Args[0] != ssa.Value(fn.Params[0]) {
+						continue
+					}
+					for pth := range li.AtInstr[c] {
+						if !strings.HasPrefix(pth, rn+".") {
+							continue
+						}
+						nHeldCalls++
+						if acquires(h, strings.TrimPrefix(pth, rn), 0, map[*ssa.Function]bool{}) {
+							r.Fail("C37.no-self-deadlock", fmt.Sprintf("%s->%s:%s", fn.Name(), h.Name(), strings.TrimPrefix(pth, rn)), p.Pos(c.Pos()), "called with "+pth+" held, and the callee locks it again")
+						}
+					}
+				}
+			}
+		}
+		r.Pass("C37.no-self-deadlock", "same-receiver-calls-under-lock", p.Pos(fns[0].Pos()), fmt.Sprintf("%d calls made with a receiver mutex held, none re-acquires it", nHeldCalls))
+	}
 	leaks := w.Leaks()
 	leakFn := map[*ssa.Function]bool{}
 	for _, l := range leaks {
@@ -568,33 +630,33 @@ func accessKind(a FieldAccess) string {
 // reading (every non-construction write holds the mutex of the same object). Frozen so
 // that a new unguarded access is a finding instead of a silent change of the inference.
 var confirmedGuards = map[string]string{
-	"block.Block.TxnsMap":                       "mutexTxns",
-	"block.Block.VerificationTickets":           "ticketsMutex",
-	"block.Block.isFinalised":                   "ticketsMutex",
-	"block.Block.isNotarized":                   "ticketsMutex",
-	"block.Block.stateStatus":                   "stateStatusMutex",
-	"block.Block.uniqueBlockExtensions":         "uniqueBlockExtMutex",
-	"miner.Round.generationCancelf":             "cancelGuard",
-	"miner.Round.ownVerificationTicket":         "roundGuard",
-	"miner.Round.verificationCancelf":           "cancelGuard",
-	"miner.Round.verificationTickets":           "roundGuard",
-	"miner.Round.vrfShare":                      "roundGuard",
-	"miner.Round.vrfSharesCache":                "roundGuard",
-	"miner.vrfSharesCache.vrfShares":            "mutex",
-	"round.Round.BlockHash":                     "mutex",
-	"round.Round.VRFOutput":                     "mutex",
-	"round.Round.finalizingState":               "mutex",
-	"round.Round.minerPerm":                     "mutex",
-	"round.Round.notarizedBlocks":               "mutex",
-	"round.Round.proposedBlocks":                "mutex",
-	"round.Round.shares":                        "mutex",
-	"round.roundStartingStorage.items":          "mu",
-	"round.roundStartingStorage.max":            "mu",
-	"round.roundStartingStorage.rounds":         "mu",
-	"round.timeoutCounter.count":                "mutex",
-	"round.timeoutCounter.perm":                 "mutex",
-	"round.timeoutCounter.prrs":                 "mutex",
-	"round.timeoutCounter.votes":                "mutex",
+	"block.Block.TxnsMap":               "mutexTxns",
+	"block.Block.VerificationTickets":   "ticketsMutex",
+	"block.Block.isFinalised":           "ticketsMutex",
+	"block.Block.isNotarized":           "ticketsMutex",
+	"block.Block.stateStatus":           "stateStatusMutex",
+	"block.Block.uniqueBlockExtensions": "uniqueBlockExtMutex",
+	"miner.Round.generationCancelf":     "cancelGuard",
+	"miner.Round.ownVerificationTicket": "roundGuard",
+	"miner.Round.verificationCancelf":   "cancelGuard",
+	"miner.Round.verificationTickets":   "roundGuard",
+	"miner.Round.vrfShare":              "roundGuard",
+	"miner.Round.vrfSharesCache":        "roundGuard",
+	"miner.vrfSharesCache.vrfShares":    "mutex",
+	"round.Round.BlockHash":             "mutex",
+	"round.Round.VRFOutput":             "mutex",
+	"round.Round.finalizingState":       "mutex",
+	"round.Round.minerPerm":             "mutex",
+	"round.Round.notarizedBlocks":       "mutex",
+	"round.Round.proposedBlocks":        "mutex",
+	"round.Round.shares":                "mutex",
+	"round.roundStartingStorage.items":  "mu",
+	"round.roundStartingStorage.max":    "mu",
+	"round.roundStartingStorage.rounds": "mu",
+	"round.timeoutCounter.count":        "mutex",
+	"round.timeoutCounter.perm":         "mutex",
+	"round.timeoutCounter.prrs":         "mutex",
+	"round.timeoutCounter.votes":        "mutex",
 }
 
 func confirmedInQuick(k string) bool {
